@@ -375,6 +375,9 @@ func (lv *loopVar) varies1(v ssa.Value) bool {
 			return true
 		}
 		if x.Op == token.MUL {
+			if g, ok := x.X.(*ssa.Global); ok && lv.p.settledGlobal(g) {
+				return false // written only while the package initialises, never handed out
+			}
 			return lv.writes || lv.varies(x.X)
 		}
 		return lv.varies(x.X)
@@ -517,4 +520,54 @@ func runLoopVaries(p *Program, r *RuleResult, pkgs []string) {
 		}
 	}
 	r.count("loops judged", loops)
+}
+
+// settledGlobal: a package-level variable of a basic type that is stored only by its
+// package's initialiser and whose address is used for nothing but loads and that store.
+func (p *Program) settledGlobal(g *ssa.Global) bool {
+	if p.settled == nil {
+		p.settled = map[*ssa.Global]bool{}
+		unsettled := map[*ssa.Global]bool{}
+		var fns []*ssa.Function
+		fns = append(fns, p.SrcFuncs...)
+		for _, pk := range p.SSAPkg {
+			if f := pk.Func("init"); f != nil {
+				fns = append(fns, f)
+			}
+		}
+		for _, fn := range fns {
+			isInit := fn.Name() == "init" && fn.Parent() == nil && fn.Signature.Recv() == nil
+			for _, b := range fn.Blocks {
+				for _, in := range b.Instrs {
+					for _, op := range in.Operands(nil) {
+						gg, ok := (*op).(*ssa.Global)
+						if !ok {
+							continue
+						}
+						switch x := in.(type) {
+						case *ssa.UnOp:
+							if x.Op == token.MUL {
+								continue
+							}
+						case *ssa.Store:
+							if x.Addr == ssa.Value(gg) && isInit && x.Val != ssa.Value(gg) {
+								continue
+							}
+						}
+						unsettled[gg] = true
+					}
+				}
+			}
+		}
+		for _, pk := range p.SSAPkg {
+			for _, m := range pk.Members {
+				if gg, ok := m.(*ssa.Global); ok && !unsettled[gg] {
+					if _, basic := gg.Type().(*types.Pointer).Elem().Underlying().(*types.Basic); basic {
+						p.settled[gg] = true
+					}
+				}
+			}
+		}
+	}
+	return p.settled[g]
 }
